@@ -55,6 +55,25 @@ static void on_segv(int, siginfo_t* si, void*)
     _exit(99);
 }
 
+// an assertion of the library failing inside an armed kernel call (e.g. its alignment check on a pointer that the contract
+// allows) is a violation of that call like a fault, not the end of the exploration
+static char g_assert_msg[400];
+extern "C" void __assert_fail(const char* expr, const char* file, unsigned line, const char* func)
+{
+    if (g_armed)
+    {
+        snprintf(g_assert_msg, sizeof g_assert_msg, "library assertion `%s' failed at %s:%u in %.120s", expr, file, line, func);
+        g_fault_addr = nullptr;
+        g_armed = 0;
+        siglongjmp(g_env, 2);
+    }
+    char b[500];
+    int n = snprintf(b, sizeof b, "UNGUARDED-FAULT section=%s type=%s arch=" XV_ARCH_NAME " assertion `%s' failed at %s:%u\n", g_section, g_type, expr, file, line);
+    if (n > 0)
+        (void)!write(2, b, (size_t)n);
+    _exit(98);
+}
+
 struct Res
 {
     uint64_t states = 0, transitions = 0, total = 0;
@@ -62,8 +81,14 @@ struct Res
     std::map<std::string, uint64_t> by_key, per_op;
 };
 static Res R;
-static void violation(const std::string& op, const std::string& type, const std::string& what)
+static void violation(const std::string& op, const std::string& type, const std::string& what_)
 {
+    std::string what = what_;
+    if (g_assert_msg[0])
+    {
+        what = std::string(g_assert_msg) + " (reported by the harness as: " + what_ + ")";
+        g_assert_msg[0] = 0;
+    }
     ++R.total;
     uint64_t& n = R.by_key[op + "|" + type + "|" XV_ARCH_NAME "|"];
     if (++n <= 3 && R.violations.size() < 200)
